@@ -327,6 +327,53 @@ Proof. intros H. unfold format_seq. rewrite (map_nth_error _ _ _ H). reflexivity
 Theorem format_seq_length l : length (format_seq l) = length l.
 Proof. apply map_length. Qed.
 
+(* ---------- operator<< : all or nothing, one item ---------- *)
+
+Theorem stream_out_raise_unchanged o f e : str_of f = Raise e -> stream_out o f = (o, Some e).
+Proof. intros H. unfold stream_out. rewrite H. reflexivity. Qed.
+
+Theorem stream_out_ok o f text : str_of f = Ok text ->
+  stream_out o f = (insert_str o text, None)
+  /\ content (insert_str o text) = content o ++ pad (width o) (fill o) (adjust_left o) text
+  /\ width (insert_str o text) = 0.
+Proof. intros H. unfold stream_out. rewrite H. repeat split. Qed.
+
+(* a wrong number of arguments leaves the caller's stream exactly as it was *)
+Theorem stream_out_wrong_arity o fmt ops : length (flatten_ops ops) <> placeholder_count fmt ->
+  fst (stream_out o (apply_ops (mk fmt) ops)) = o.
+Proof.
+  intros Hl. unfold stream_out.
+  change (str_of (apply_ops (mk fmt) ops)) with (format_chain fmt ops).
+  rewrite percent_and_args_agree, format_spec. unfold spec_format. rewrite map_length.
+  destruct (length (flatten_ops ops) =? placeholder_count fmt) eqn:E; [apply Nat.eqb_eq in E; contradiction|].
+  reflexivity.
+Qed.
+
+Theorem pad_length w c left text : length (pad w c left text) = Nat.max w (length text).
+Proof.
+  unfold pad. destruct left; rewrite app_length, repeat_length; lia.
+Qed.
+
+Theorem pad_narrow w c left text : w <= length text -> pad w c left text = text.
+Proof.
+  intros H. unfold pad. replace (w - length text) with 0 by lia. simpl.
+  destruct left; [apply app_nil_r | reflexivity].
+Qed.
+
+(* the whole observation of the stream equals the specification *)
+Theorem stream_chain_spec pre w c left fmt ops sentinel :
+  stream_chain {| content := pre; width := w; fill := c; adjust_left := left |} fmt ops sentinel
+  = spec_stream pre w c left fmt (map render (flatten_ops ops)) sentinel.
+Proof.
+  unfold stream_chain, stream_then, stream_out, spec_stream.
+  change (str_of (apply_ops (mk fmt) ops)) with (format_chain fmt ops).
+  rewrite percent_and_args_agree, format_spec.
+  destruct (spec_format fmt (map render (flatten_ops ops))) as [text|e];
+    cbn [fst snd insert_str content width fill adjust_left].
+  - rewrite (pad_narrow 0) by lia. rewrite <- app_assoc. reflexivity.
+  - reflexivity.
+Qed.
+
 (* ---------- exception message ---------- *)
 
 Lemma make_exception_concat args : forall msg,
